@@ -1,8 +1,11 @@
 (* Model of the automata engine of cpppo/automata.py (state.run, state.transition, state.__getitem__,
    dfa_base.delegate, state_input/state_drop.process, state_struct.terminate) as a big-step interpreter over
    dumped machine graphs, for inputs that are completely available (end of input = no more symbols).
-   Properties C10, C11 (and the parser side of C02, C08).  Machines are produced by tools/dumpmach.py from
-   live cpppo objects; decide/predicate edges and callable limits are outside this model (the dumper refuses).
+   Properties C10, C11 (and the parser side of C02, C08).  Machines are dumped from live cpppo objects by
+   props/engine_common.py.  `decide` edges (predicates are arbitrary Python) and callable limits are external calls:
+   their outcomes come from oracle tapes kept in the data under two reserved keys, recorded by the harness from the
+   implementation's own run - every theorem holds for every tape.  Side effects of move_if on the data are not
+   modelled (data of such machines is not compared).
    Hand-written; tied to /repo by props/engine_common.py.  Definitions only. *)
 From Coq Require Import ZArith List Bool.
 Import ListNotations.
@@ -11,7 +14,9 @@ Open Scope Z_scope.
 Definition ANY := -1.   (* state.ANY : the [True] edge *)
 Definition NON := -2.   (* state.NON : the [None] edge *)
 
-Inductive lim := LNone | LInt (n : Z) | LKey (k : Z).          (* None / int / data path (missing => 0) *)
+Inductive lim := LNone | LInt (n : Z) | LKey (k : Z) | LCall.  (* None / int / data path (missing => 0) / callable (oracle) *)
+(* a transition target: None, a state, or a decide( state=... ) whose predicate the oracle answers *)
+Inductive tgt := TNone | TState (n : nat) | TDecide (st : option nat).
 Inductive proc := PNone | PInput (store : option Z) | PDrop.   (* state / state_input / state_drop *)
 
 Record node := Node {
@@ -19,7 +24,7 @@ Record node := Node {
   n_term : bool;                                  (* ._terminal *)
   n_greedy : bool;
   n_limit : lim;
-  n_trans : list (Z * option nat);                (* encoded symbol / ANY / NON -> target state or None *)
+  n_trans : list (Z * list tgt);                  (* encoded symbol / ANY / NON -> the choice list of targets *)
   n_sub : option (nat * lim);                     (* dfa: initial state, repeat *)
   n_struct : option (Z * Z * Z * Z)               (* state_struct: source key, destination key, size, signed? *)
 }.
@@ -57,22 +62,32 @@ Inductive result :=
 | ROk (s : source) (d : data) (yielded : option (option nat)) (term : bool)
 | RFail (code : Z).
 
-Definition resolve_lim (l : lim) (d : data) : option (option Z) :=   (* None = bad type; Some None = no limit *)
-  match l with
-  | LNone => Some None
-  | LInt n => Some (Some n)
-  | LKey k => match dget k d with
-              | None => Some (Some 0)
-              | Some (DInt z) => Some (Some z)
-              | Some (DBytes _) => None
-              end
+(* oracle tapes: outcomes of decide predicates (0 / 1) and values of callable limits, consumed in order *)
+Definition TAPE_DECIDE := -1.
+Definition TAPE_LIMIT := -2.
+Definition pop_tape (k : Z) (d : data) : option (Z * data) :=
+  match dget k d with
+  | Some (DBytes (x :: t)) => Some (x, dset k (DBytes t) d)
+  | _ => None
   end.
 
-Fixpoint lookup_edge (k : Z) (tr : list (Z * option nat)) : option (option nat) :=
+Definition resolve_lim (l : lim) (d : data) : option (option Z * data) :=   (* None = bad type; Some (None, _) = no limit *)
+  match l with
+  | LNone => Some (None, d)
+  | LInt n => Some (Some n, d)
+  | LKey k => match dget k d with
+              | None => Some (Some 0, d)
+              | Some (DInt z) => Some (Some z, d)
+              | Some (DBytes _) => None
+              end
+  | LCall => match pop_tape TAPE_LIMIT d with Some (v, d') => Some (Some v, d') | None => None end
+  end.
+
+Fixpoint lookup_edge (k : Z) (tr : list (Z * list tgt)) : option (list tgt) :=
   match tr with [] => None | (k', t) :: r => if k =? k' then Some t else lookup_edge k r end.
 
 (* state.__getitem__: exact symbol, then ANY (only with input present), then NON *)
-Definition choose (tr : list (Z * option nat)) (inp : option Z) : option (option nat) :=
+Definition choose (tr : list (Z * list tgt)) (inp : option Z) : option (list tgt) :=
   match inp with
   | Some c => match lookup_edge c tr with
               | Some t => Some t
@@ -84,16 +99,32 @@ Definition choose (tr : list (Z * option nat)) (inp : option Z) : option (option
   | None => lookup_edge NON tr
   end.
 
+(* evaluating a choice list: the first None / state ends it; a decide is taken when the oracle says so *)
+Fixpoint decide_list (cs : list tgt) (d : data) : option nat * data :=
+  match cs with
+  | [] => (None, d)
+  | TNone :: _ => (None, d)
+  | TState n :: _ => (Some n, d)
+  | TDecide st :: rest =>
+      match pop_tape TAPE_DECIDE d with
+      | Some (b, d') => if b =? 0 then decide_list rest d'
+                        else match st with Some n => (Some n, d') | None => decide_list rest d' end
+      | None => (None, d)
+      end
+  end.
+
 Fixpoint le_val (bs : list Z) : Z := match bs with [] => 0 | b :: t => b + 256 * le_val t end.
 
-(* state_struct.terminate for the little-endian integer formats: take `size` bytes from the source key *)
+(* state_struct.terminate for the integer formats: take `size` bytes from the source key.
+   signed: 0 unsigned / 1 signed little-endian, 2 unsigned / 3 signed big-endian (network order) *)
 Definition struct_decode (d : data) (st : Z * Z * Z * Z) : option data :=
   let '(src, dst, size, signed) := st in
   match dget src d with
   | Some (DBytes l) =>
       if Z.of_nat (length l) <? size then None else
-      let u := le_val (firstn (Z.to_nat size) l) in
-      let v := if (signed =? 1) && (Z.shiftl 1 (8 * size - 1) <=? u) then u - Z.shiftl 1 (8 * size) else u in
+      let bs := firstn (Z.to_nat size) l in
+      let u := le_val (if 2 <=? signed then rev bs else bs) in
+      let v := if (signed mod 2 =? 1) && (Z.shiftl 1 (8 * size - 1) <=? u) then u - Z.shiftl 1 (8 * size) else u in
       (* data[ours] = val replaces the level that held ours.input *)
       Some (dset dst (DInt v) (dremove src d))
   | _ => None
@@ -119,11 +150,14 @@ Definition min_ending (ending : option Z) (snt : Z) (limit : option Z) : option 
   end.
 
 (* state.transition on a completely available input *)
-Definition transition (n : node) (term : bool) (s : source) (ending : option Z) : option (option nat) :=
-  if term && negb (n_greedy n) then None else
+Definition transition (n : node) (term : bool) (s : source) (ending : option Z) (d : data) : option (option nat) * data :=
+  if term && negb (n_greedy n) then (None, d) else
   let limited := match ending with Some e => e <=? sent s | None => false end in
   let inp := if limited then None else peek s in
-  choose (n_trans n) inp.
+  match choose (n_trans n) inp with
+  | None => (None, d)
+  | Some cs => let (t, d') := decide_list cs d in (Some t, d')
+  end.
 
 (* a way to run one state (by id) of the graph under a fixed `ending`: the recursive call of the interpreter *)
 Definition runner := nat -> source -> data -> result.
@@ -191,7 +225,7 @@ Definition delegate (rec : runner) (f : nat) (m : machine) (n : node) (s : sourc
   | Some (init, rep) =>
     match resolve_lim rep d with
     | None => RFail 4
-    | Some r =>
+    | Some (r, d) =>
       let final := match r with None => 1 | Some z => z end in
       match cycles_loop rec f init final f 0 s d (init_term m init) with
       | RFail c => RFail c
@@ -205,10 +239,10 @@ Definition finish (n : node) (ending1 : option Z) (s2 : source) (d2 : data) (ter
   match (match n_struct n with Some st => struct_decode d2 st | None => Some d2 end) with
   | None => RFail 4
   | Some d3 =>
-    let y := transition n term s2 ending1 in
+    let (y, d4) := transition n term s2 ending1 d3 in
     match ending1 with
-    | Some e => if e <? sent s2 then RFail 3 else ROk s2 d3 y term
-    | None => ROk s2 d3 y term
+    | Some e => if e <? sent s2 then RFail 3 else ROk s2 d4 y term
+    | None => ROk s2 d4 y term
     end
   end.
 
@@ -224,9 +258,9 @@ Fixpoint run_state (fuel : nat) (m : machine) (id : nat) (s : source) (d : data)
       | Some (s1, d1) =>
         match resolve_lim (n_limit n) d1 with
         | None => RFail 4
-        | Some lm =>
+        | Some (lm, d1') =>
           let ending1 := min_ending ending (sent s1) lm in
-          match delegate (fun cur s' d' => run_state f m cur s' d' ending1) f m n s1 d1 with
+          match delegate (fun cur s' d' => run_state f m cur s' d' ending1) f m n s1 d1' with
           | RFail c => RFail c
           | ROk s2 d2 _ term => finish n ending1 s2 d2 term
           end
@@ -238,3 +272,7 @@ Fixpoint run_state (fuel : nat) (m : machine) (id : nat) (s : source) (d : data)
 (* machine.run( source, data ) driven to completion on the whole input *)
 Definition run (fuel : nat) (m : machine) (input : list Z) : result :=
   run_state fuel m 0%nat (Src input 0) [] None.
+
+(* ... with the oracle tapes for decide predicates and callable limits *)
+Definition run_oracle (fuel : nat) (m : machine) (input decides limits : list Z) : result :=
+  run_state fuel m 0%nat (Src input 0) [(TAPE_DECIDE, DBytes decides); (TAPE_LIMIT, DBytes limits)] None.
